@@ -15,7 +15,9 @@
    with ErrorCount > 0 returns an error, so a scanner error is one outcome
    SErr.  The NUL rule (next() reports NUL whenever it reads one, and every
    rune is read before EOF is returned) is the up-front test has_nul.
-   Not modelled: invalid UTF-8 (rune-level model), scanNumber (unreachable:
+   Invalid UTF-8: next() reports "invalid UTF-8 encoding" for a byte that starts no valid
+   sequence (a raw pseudo rune of the front end Text/Utf8.v), like NUL: has_invalid.
+   Not modelled: scanNumber (unreachable:
    the custom IsIdentRune accepts digits and '.', both printable), positions. *)
 From Coq Require Import List NArith Bool.
 From Dials Require Import Base.Outcome Base.Runes Text.ParseInt Text.Quote.
@@ -168,7 +170,7 @@ Section SplitSlice.
   Definition split_strings_slice (s : str) (a : A) : outcome A :=
     match s with
     | [] => Ok a
-    | _ => if has_nul s then Err e_scan else sss_loop (S (length s)) (strip_bom s) true a
+    | _ => if has_nul s || has_invalid s then Err e_scan else sss_loop (S (length s)) (strip_bom s) true a
     end.
 End SplitSlice.
 
@@ -222,7 +224,7 @@ Section SplitMap.
     end.
 
   Definition split_map (s : str) (a : A) : outcome A :=
-    if has_nul s then Err e_scan else sm_loop (S (length s)) (strip_bom s) ms0 a.
+    if has_nul s || has_invalid s then Err e_scan else sm_loop (S (length s)) (strip_bom s) ms0 a.
 End SplitMap.
 
 (* ---- callers ---- *)
